@@ -321,6 +321,35 @@ def run(check: Check) -> None:
         rig.run_sym(check, "formula.state", fn, claims, pre=pre_d, replay=rep, timeout_ms=tmo, case_id=f"formula state {call}",
                     sample=f"model_matrix('0 + {call}') then spec replay: a training row and a fresh row")
 
+    # two stateful calls on DISTINCT quoted names whose sanitised forms coincide (`x 1`, `x-1` -> x_1): each keeps its own statistics
+    def fn_pair():
+        u, v = sym_vector("u", 3), sym_vector("v", 3)
+        with symbolic_pipeline():
+            mm = model_matrix("0 + scale(`x 1`) + scale(`x-1`) + center(`x-1`)", pandas.DataFrame(index=range(3)), context={"x 1": u, "x-1": v}, output="numpy")
+        return numpy.asarray(mm, dtype=object).reshape((3, -1)), mm.model_spec
+
+    def claims_pair(res):
+        m, spec = res
+        yield "three columns, three recorded states", bool(m.shape == (3, 3) and len(spec.transform_state) == 3)
+        for j, nm in ((0, "scale(`x 1`)"), (1, "scale(`x-1`)")):
+            col = [lift(m[i, j]) for i in range(3)]
+            yield f"{nm}: zero mean on its own data", sum(col) == 0
+            yield f"{nm}: unit deviation on its own data", sum(c * c for c in col) == 2
+        V = [z3.Real(f"v{i}") for i in range(3)]
+        yield "center(`x-1`) == v - mean(v)", z3.And(*[lift(m[i, 2]) == V[i] - sum(V) / 3 for i in range(3)])
+
+    def rep_pair(model, label):
+        p = {"kind": "c13_quoted_pair", "u": _floats(model, "u", 3), "v": _floats(model, "v", 3)}
+        for cand in (p, dict(p, u=[1.0, 2.0, 4.5], v=[10.0, 30.0, 20.0])):
+            bad = replays.run(cand)
+            if bad:
+                return ("formula_state(quoted look-alikes)", bad, cand)
+        return None
+
+    pre_pair = [z3.Real(f"{n}{i}") != z3.Real(f"{n}{j}") for n in "uv" for i in range(3) for j in range(i + 1, 3)]
+    rig.run_sym(check, "formula.state", fn_pair, claims_pair, pre=pre_pair, replay=rep_pair, timeout_ms=tmo, case_id="formula state quoted look-alikes",
+                sample="scale(`x 1`) + scale(`x-1`): distinct columns whose sanitised names coincide")
+
     # ---------------------------------------------------------------- floating point (ground; a real-valued term cannot see rounding):
     # "any magnitude" includes data whose common offset dwarfs its spread, and tiny / huge spreads
     for name, vec in (("offset 1e8", [1e8 + k for k in range(5)]), ("offset 3e9, spread 0.5", [3e9 + 0.5 * k for k in range(6)]), ("offset 1.7e9 (epoch seconds)", [1.7e9 + 3.0 * k * k for k in range(10)]),
